@@ -12,6 +12,7 @@ The recursive prefilter uses `sqrt/log/pow` and is modelled at `Float` only.
 -/
 import Mahotas.Model.Border
 import Mahotas.Model.DType
+import Mahotas.Model.C18Shape
 namespace Mahotas.C18
 open Mahotas
 
@@ -193,6 +194,30 @@ def resizeRgbTo (fl : α → Int) (pre : Img α → Img α) (order : Nat) (im : 
     let chs := (List.range 3).filterMap fun c => resizeTo fl pre order (channel im c) nsize
     if chs.length ≠ 3 then none else some (dstack nsize chs)
 
+/-- `zoom(array, factor, order, mode)` without `out`: the scalar-to-vector broadcast and the length check
+    (`zoomFactors`), `output_shape = int(s * z)` per axis (`zoomOutShape`, `Model/C18Shape.lean`), then — like every
+    call — the factors handed to `zoom_shift` are recomputed from the shapes (`zoomGlue`). `none` = raises. -/
+def zoomByFactor (fl : α → Int) (pre : Img α → Img α) (order : Nat) (m : Mode) (cval : α) (im : Img α)
+    (scalar : Bool) (zs : List α) : Option (Img α) :=
+  match zoomOutShape fl im.shape (zoomFactors im.shape.length scalar zs) with
+  | none => none
+  | some os => some (zoomGlue fl order m cval (pre im) os)
+
+/-- `imresize(img, nsize, order)` on its factor path (`nsize` a float, or a sequence whose first entry is not a
+    Python `int`): `return zoom(img, nsize, order=order)` (defaults `mode='constant'`, `cval=0.0`) -/
+def imresizeFactor (fl : α → Int) (pre : Img α → Img α) (order : Nat) (img : Img α) (scalar : Bool) (zs : List α) :
+    Option (Img α) :=
+  zoomByFactor fl pre order .constant ((0 : Nat) : α) img scalar zs
+
+/-- `resize_to` on an image of an integer dtype `dt`: `out = np.empty(nsize, dtype=im.dtype)`; `zoom` works in
+    `float64` and ends with `o_out[:] = out[:]` — every interpolated value is truncated toward zero (`castToInt`;
+    `none` entries: outside the dtype's range, not modelled) -/
+def resizeToDT (fl : α → Int) (pre : Img α → Img α) (order : Nat) (dt : DT) (im : Img α) (nsize : List Nat) :
+    Option (Img (Option Int)) :=
+  match resizeTo fl pre order im nsize with
+  | none => none
+  | some r => some { shape := r.shape, data := r.data.map (castToInt fl dt) }
+
 /-! ### specification (the statement's words)
 
 Along one axis, for the coordinate `cc` an output index maps to:
@@ -274,6 +299,50 @@ def initFull (z zpow : α) (len : Nat) (s : Nat → α) : α :=
   let st := (List.range (len - 2)).foldl (stepFull z iz s) (s 0 + zpow * s (len - 1), z, zpow * (zpow * iz))
   st.1 / (((1 : Nat) : α) - st.2.1 * st.2.1)
 
+/-! ### `spline_filter1d` / `spline_filter` on arrays
+
+The array loop of the prefilter, polymorphic: the driver runs it at `Float` with the code's poles, weight and
+initialisation rule; `Proofs/C18Array.lean` proves over any field that it computes, position by position, the separable
+prefilter `prefilterNd` the interpolation theorems speak about. -/
+
+/-- the initial value `spline_filter1d` gives the causal pass of pole `p` on a line of length `len`: the sum cut after
+    `cut p` terms when that is below the length, otherwise the closed form over the mirrored line
+    (`pw p n` stands for `pow(p, n)`) -/
+def iniCode (cut : α → Int) (pw : α → Nat → α) (p : α) (len : Nat) (s : Nat → α) : α :=
+  if cut p < (len : Int) then initTrunc p (cut p).toNat s else initFull p (pw p (len - 1)) len s
+
+/-- one line of `spline_filter1d` for the weight `w`, the poles `ps` and the initialisation rule `ini`: a line of at
+    most one sample is returned as it is; otherwise `line *= w` and, pole after pole, `line[0] = ini p len line`, the
+    causal and the anti-causal pass (`onePole`; it reads `line[0]` only through the initial value) -/
+def filterLineP (w : α) (ps : List α) (ini : α → Nat → (Nat → α) → α) (line0 : Array α) : Array α :=
+  let len := line0.size
+  if len ≤ 1 then line0
+  else ps.foldl (fun line p =>
+      (Array.range len).map
+        (onePole p (ini p len (fun k => line.getD k ((0 : Nat) : α))) len (fun k => line.getD k ((0 : Nat) : α))))
+    (line0.map (· * w))
+
+/-- the `len` samples of the line through `p` along `axis` -/
+def lineOf (im : Img α) (axis : Nat) (p : List Int) (len : Nat) : Array α :=
+  (Array.range len).map fun k => im.getD (p.set axis ((k : Nat) : Int)) ((0 : Nat) : α)
+
+/-- `spline_filter1d` along `axis` with the line filter `F`: every line along the axis is replaced by `F line`
+    (each line is filtered once — stored at the flat index of its first sample — and every sample is read from its
+    line; the lines are disjoint, so this is what the in-place loop of the C++ code leaves behind).
+    An axis of length ≤ 1 (or beyond the rank) leaves the array as it is. -/
+def filterAxisP (F : Array α → Array α) (im : Img α) (axis : Nat) : Img α :=
+  let len := im.shape.getD axis 1
+  if len ≤ 1 then im
+  else
+    let lines : Array (Array α) := ((allPos im.shape).map fun p =>
+      if p.getD axis 0 = 0 then F (lineOf im axis p len) else #[]).toArray
+    Img.tabulate im.shape fun p =>
+      (lines.getD (ravelI im.shape (p.set axis 0)) #[]).getD (p.getD axis 0).toNat ((0 : Nat) : α)
+
+/-- `interpolate.spline_filter`: `for axis in range(array.ndim): spline_filter1d(output, order, axis)` -/
+def splineFilterP (F : Array α → Array α) (im : Img α) : Img α :=
+  (List.range im.shape.length).foldl (filterAxisP F) im
+
 end Poly
 
 /-! ## `Float` instance and the prefilter -/
@@ -300,25 +369,11 @@ def poleWeight (ps : List Float) : Float :=
 /-- number of terms after which the causal initialisation sum is cut (`log_tolerance = log(1e-15)`) -/
 def cutLen (p : Float) : Int := (Float.ceil (Float.log 1e-15 / Float.log (Float.abs p))).toInt64.toInt
 
-/-- one line of `spline_filter1d` (`len ≥ 2`) -/
-def filterLine (order : Nat) (line0 : Array Float) : Array Float := Id.run do
-  let len := line0.size
-  if len ≤ 1 then return line0
-  let ps := poles order
-  let w := poleWeight ps
-  let mut line := line0.map (· * w)
-  for p in ps do
-    let mx := cutLen p
-    -- the initial value of the causal pass (the polymorphic `initTrunc` / `initFull`)
-    let cur0 := line
-    if mx < (len : Int) then
-      line := line.set! 0 (initTrunc p mx.toNat (fun k => cur0[k]!))
-    else
-      line := line.set! 0 (initFull p (Float.pow p (Float.ofNat (len - 1))) len (fun k => cur0[k]!))
-    -- the two recursions (the polymorphic `onePole`, about which `Properties/C18.lean` speaks)
-    let cur := line
-    line := (Array.range len).map (onePole p cur[0]! len (fun k => cur[k]!))
-  return line
+/-- one line of `spline_filter1d`: `filterLineP` with the code's poles, their weight, and the code's initialisation
+    rule (cut at `cutLen`, `pow` for the closed form) -/
+def filterLine (order : Nat) (line0 : Array Float) : Array Float :=
+  filterLineP (poleWeight (poles order)) (poles order)
+    (iniCode cutLen (fun p n => Float.pow p (Float.ofNat n))) line0
 
 /-- was the initialisation sum cut short on a line of this length? (then the coefficients reproduce
     the samples to about `1e-15` relative instead of to rounding) -/
@@ -326,23 +381,23 @@ def truncated (order len : Nat) : Bool :=
   len > 1 && (poles order).any fun p => cutLen p < (len : Int)
 
 /-- `spline_filter1d` along `axis` -/
-def filterAxis (order : Nat) (im : Img Float) (axis : Nat) : Img Float := Id.run do
-  let len := im.shape.getD axis 1
-  if len ≤ 1 then return im
-  let stride := shapeSize (im.shape.drop (axis + 1))
-  let mut data := im.data
-  for i in [0:im.size] do
-    if (i / stride) % len = 0 then
-      let line := filterLine order ((Array.range len).map fun k => data[i + k * stride]!)
-      for k in [0:len] do
-        data := data.set! (i + k * stride) line[k]!
-  return { im with data := data }
+def filterAxis (order : Nat) (im : Img Float) (axis : Nat) : Img Float := filterAxisP (filterLine order) im axis
 
 /-- `interpolate.spline_filter` -/
 def splineFilter (order : Nat) (im : Img Float) : Img Float :=
-  if order ≤ 1 then im else (List.range im.shape.length).foldl (filterAxis order) im
+  if order ≤ 1 then im else splineFilterP (filterLine order) im
 
 /-! ## driver -/
+
+def showOptInts (xs : List (Option Int)) : String :=
+  ",".intercalate (xs.map fun | some i => toString i | none => "u")
+
+/-- the factor vector of a driver line: `factor=` (float bit patterns) with `scalar=0/1` -/
+def factorArgs (a : Args) : Bool × List Float := (a.nat "scalar" 0 == 1, a.floats "factor")
+
+/-- `int(s * z)` raises on a non-finite product (`ValueError` for NaN, `OverflowError` for ±inf) -/
+def finiteProducts (shape : List Nat) (scalar : Bool) (zs : List Float) : Bool :=
+  ((shape.zip (zoomFactors shape.length scalar zs)).all fun sz => (Float.ofNat sz.1 * sz.2).isFinite)
 
 def showOptFloats (xs : List (Option Float)) : String :=
   ",".intercalate (xs.map fun | some f => toString f.toBits.toNat | none => "u")
@@ -359,11 +414,32 @@ def handle (a : Args) : String :=
     -- B-spline expansion of the given coefficients at the sample points
     let r := zoomShift flF order .mirror 0.0 im (shape.map fun _ => none) (shape.map fun _ => none) shape
     s!"spec={showFloats r.data.toList}"
+  | "osh" =>
+    -- the output shape a zoom factor asks for: `ifactor=` an integer vector (exact), else `factor=` floats
+    let r : Option (List Nat) :=
+      if a.has "ifactor" then
+        zoomOutShape (fun (i : Int) => i) shape (zoomFactors shape.length (a.nat "scalar" 0 == 1) (a.ints "ifactor"))
+      else
+        let (sc, zs) := factorArgs a
+        if finiteProducts shape sc zs then zoomOutShape flF shape (zoomFactors shape.length sc zs) else none
+    match r with
+    | some o => s!"oshape={showNats o}"
+    | none => "oshape=none"
+  | "rsi" =>
+    -- `resize_to` on an image of an integer dtype: the float values and their truncation to the dtype
+    let dt := DT.ofName (a.str "dtype")
+    match resizeTo flF (splineFilter order) order im (a.nats "nsize"),
+        resizeToDT flF (splineFilter order) order dt im (a.nats "nsize") with
+    | some o, some c => s!"shape={showNats o.shape} model={showFloats o.data.toList} cast={showOptInts c.data.toList}"
+    | _, _ => "shape=none model=none cast=none"
   | "rs" =>
-    -- the wrappers of `resize.py` on their explicit-shape path
+    -- the wrappers of `resize.py`
     let nsize := a.nats "nsize"
     let r : Option (Img Float) :=
       match a.str "name" with
+      | "imresize_factor" =>
+        let (sc, zs) := factorArgs a
+        if finiteProducts shape sc zs then imresizeFactor flF (splineFilter order) order im sc zs else none
       | "resize_to" => resizeTo flF (splineFilter order) order im nsize
       | "imresize" => imresizeInt flF (splineFilter order) order im nsize
       | "resize_rgb_to" => resizeRgbTo flF (splineFilter order) order im nsize
